@@ -1,5 +1,6 @@
 """Exploration of SU_vector lifecycle operations over abstract entry states (engine B driver).
 Produces findings tagged with rule ids; c08/c09/c15/c16 select the rules they own."""
+from guarded import same, explain
 import itertools
 
 from astdb import AnalysisBroken, sig
@@ -520,6 +521,24 @@ def expr_shapes(db):
     return shapes
 
 
+def depends_on_fresh_storage(v):
+    """does the value mention the prior content T<k> of the fresh temporary it was computed into?"""
+    import re
+    from interp import ITE
+    from kernels import flatten_ite
+    if isinstance(v, ITE):
+        for path, leaf in flatten_ite(v):
+            r = depends_on_fresh_storage(leaf)
+            if r:
+                return r
+        return None
+    if isinstance(v, Poly):
+        for name in v.vars():
+            if re.match(r'^T\d+$', name):
+                return name
+    return None
+
+
 def naive_value(ex, op, d):
     """component list of op(a,b) evaluated by the kernel on non-aliased fresh operands (engine A run)"""
     key = (op, d)
@@ -699,6 +718,13 @@ def post_expr(w, ctx, pre, out, live):
     if sv['size'] != d * d or sv['dim'] != d or sv['values'] is None:
         res.append(('B.value', 'target of dimension %d holding the result' % d, 'dim=%r size=%r' % (sv['dim'], sv['size'])))
         return res
+    # the reference itself: the kernel run in assignment mode on a fresh temporary must determine every component
+    for k in range(d * d):
+        dep = depends_on_fresh_storage(naive[k])
+        if dep:
+            res.append(('B.value', 'the operation evaluated into a fresh temporary determines component %d' % k,
+                        'component %d of the temporary keeps what the storage held before (%s): %s' % (k, dep, naive[k])))
+            return res
     # the target's initial values, expressed in operand symbols when it aliases an operand
     for k in range(d * d):
         n = naive[k]
@@ -712,7 +738,7 @@ def post_expr(w, ctx, pre, out, live):
                 break
             want = t0 + n if W == 'IncrementWrapper' else t0 - n
         got = sv['values'][k]
-        if not (isinstance(got, Poly) and got.equals(want)):
+        if not (same(got, want)):
             res.append(('B.value', 'component %d equals the value obtained by first evaluating the operation into a fresh temporary (%s)' % (k, want),
                         '%s' % (got,)))
             break
@@ -757,7 +783,7 @@ def explore_cached(db, tier):
             with open(os.path.join(here, fn), 'rb') as fh:
                 h.update(fh.read())
     key = '%s-%s-%s' % (astdb._hash_inputs(), tier, h.hexdigest()[:12])
-    path = os.path.join(astdb.BUILD, 'lifecycle-%s.pkl' % key)
+    path = os.path.join(astdb.CACHE, 'lifecycle-%s.pkl' % key)
     if os.path.exists(path):
         try:
             with open(path, 'rb') as fh:
@@ -771,10 +797,10 @@ def explore_cached(db, tier):
         'alloc_sites': {k: sorted(v) for k, v in ex.alloc_sites.items()},
         'steal': ex.steal_checks,
     }
-    for fn in os.listdir(astdb.BUILD):
+    for fn in os.listdir(astdb.CACHE):
         if fn.startswith('lifecycle-') and fn.endswith('.pkl') and ('-%s-' % tier) in fn:
             try:
-                os.unlink(os.path.join(astdb.BUILD, fn))
+                os.unlink(os.path.join(astdb.CACHE, fn))
             except OSError:
                 pass
     tmp = path + '.tmp%d' % os.getpid()
